@@ -31,6 +31,9 @@ type ChiSquared struct {
 
 // CDF computes the value of the cumulative density function at x.
 func (c ChiSquared) CDF(x float64) float64 {
+	if x < 0 {
+		return 0
+	}
 	return mathext.GammaIncReg(c.K/2, x/2)
 }
 
@@ -46,7 +49,11 @@ func (c ChiSquared) LogProb(x float64) float64 {
 		return math.Inf(-1)
 	}
 	lg, _ := math.Lgamma(c.K / 2)
-	return (c.K/2-1)*math.Log(x) - x/2 - (c.K/2)*math.Ln2 - lg
+	var lx float64
+	if c.K != 2 {
+		lx = (c.K/2 - 1) * math.Log(x)
+	}
+	return lx - x/2 - (c.K/2)*math.Ln2 - lg
 }
 
 // Mean returns the mean of the probability distribution.
